@@ -27,7 +27,8 @@ COQ_HEADER = ("From Coq Require Import List NArith ZArith.\nFrom SK Require Impo
 SHARD = 450
 IMPL_TIMEOUT = 1500
 COQ_TIMEOUT = 900
-RULE = ("ITS graphs (synthetic, ITSGraph of synthetic pairs with and without ignore_aromaticity/balance_its, rsmi_to_its of corpus reactions and "
+RULE = ("round 3 adds histories (one case = a script of queries, in-place edits and result mutations on ONE shared ITS object; non-trivial = two steps "
+        "answer differently), wrapper, degenerate-value and 100-150-atom cases.  ITS graphs (synthetic, ITSGraph of synthetic pairs with and without ignore_aromaticity/balance_its, rsmi_to_its of corpus reactions and "
         "rewritings), radii 0..3 (helpers: 0,1,4,7 and -1); get_rc under all four (disconnected, keep_mtg) settings and several element_key "
         "lists; lists of reaction dicts; non-trivial = ITS of a recognised class (standard_order = difference, or the ignore_aromaticity rule) "
         "whose centre is non-empty and strictly smaller than the ITS / an option that changes the centre / a list of >= 2 / an extension path "
@@ -44,7 +45,12 @@ EXPLANATION = ("Exhaustive sub-spaces (both tiers): ALL ITS graphs on 1..3 nodes
                "balance_its) of random/malformed pairs and corpus reactions, RadiusExpand helpers (find_unequal_order_edges, remove_normal_edges, "
                "extract_k for radii 0,1,4,7; n_knn=-1 with longest_radius_extension on graphs in networkx iteration order incl. rings with many "
                "equally long paths), lists of 1..5 reaction dicts through paralle_context_extraction, corpus reactions with renumbering (also into "
-               "10..99 and 100..999), ring closures rewritten as %1d, re-rooting, fragment shuffle, reversal.  Theorems: see LEVEL_TEXT.")
+               "10..99 and 100..999), ring closures rewritten as %1d, re-rooting, fragment shuffle, reversal.  Round 3: 500 histories in 7 flavours (radii in different "
+               "orders; count-preserving / count-changing / rewiring in-place edits between extractions; options before and after defaults, positional and by "
+               "keyword; caller-side mutation of returned graphs; the same object several times in a list) + 12 hand-written ones, get_rc with bond_key / "
+               "standard_key, remove_normal_edges('is_mtg'), rsmi_to_its(core), HierContext.fit, 70 fixed degenerate cases (empty ITS, single/isolated atoms, "
+               "no changed bond, 0 / 0.0 / -0.0, ids 0 and 4e9, elements '' and '*', absent labels, radius 50, self loops; raw values outside the model are "
+               "monitored only), ITS graphs with 100-150 atoms.  Theorems: see LEVEL_TEXT.")
 TRUSTED_BASE = [
     "Coq 8.16.1 kernel + vm_compute (no native_compute); stdlib only",
     "hand-written models coq/model/C02_Model.v (get_rc, get_rc with element_key/disconnected/keep_mtg, find_nearest_neighbors, extract_k incl. "
@@ -73,13 +79,16 @@ TESTED_NOT_PROVED = [
     "renumbered corpus case; the graph-level statement is theorem C02_rc_equivariant",
     "idempotence of get_rc under options is proved when element_key keeps element and typesGH (C02_rcx_idem) and refuted by witnesses when either is "
     "dropped; the centre of the centre is compared with the model on every option case",
-    "longest_radius_extension: proved to return a simple path of unchanged bonds from a centre atom (C02_lre_path) that is at least as long as every "
-    "such path from the FIRST centre atom (C02_lre_longest_first); for later centre atoms (search restricted by the atoms of earlier paths) the "
-    "result is only compared with the model on every 'lre' case; C02_extract_k_minus1 relates the context to its length",
-    "get_rc / the RadiusExpand helpers do not mutate their input; context_extraction copies the dict (oracle on every option / helper / list case)",
+    "statefulness: the Gallina functions are pure, so 'every step of a history equals the fresh value' holds in the model by construction; that the "
+    "Python code has no state surviving between calls / aliasing between results and inputs is what the history cases test (every step judged by the "
+    "oracle against a fresh evaluation and against the set-based reference); nested attribute lists (neighbors) ARE shared by reference between an ITS, "
+    "its centre and its contexts (networkx shallow copies) and the oracle does not demand otherwise",
+    "paralle_context_extraction with n_jobs > 1 (joblib falls back to 1 inside the harness' daemonic workers)",
+    "get_rc / the RadiusExpand helpers do not mutate their input graph, their element_key list or earlier results; context_extraction copies the dict "
+    "(oracle on every option / helper / list / history case)",
     "isinstance(order, tuple) in find_unequal_order_edges: ITS graphs whose order is a list are outside the model (the library never builds them)",
 ]
-LEVEL_TEXT = ("Machine-checked proof (Coq, 32 theorems, all closed under the global context) over an executable model of get_rc and RadiusExpand: on every "
+LEVEL_TEXT = ("Machine-checked proof (Coq, 39 theorems, all closed under the global context) over an executable model of get_rc and RadiusExpand: on every "
               "well-formed ITS graph whose standard_order is the order difference the centre contains a bond iff its two orders differ or both atoms "
               "are hydrogens (for ignore_aromaticity ITS graphs: iff the orders differ by at least 1, with a witness that 'differs' alone fails; "
               "stated also on the two sides: for the ITS of a reactant graph G and a product graph H two atoms are joined in the centre iff they are "
@@ -92,9 +101,10 @@ LEVEL_TEXT = ("Machine-checked proof (Coq, 32 theorems, all closed under the glo
               "every variant; with default options the general function is get_rc; every variant is well-formed, commutes with injective renumberings and is "
               "idempotent when element_key keeps element and typesGH).  Helpers: find_unequal_order_edges is a subset of the centre "
               "atoms, equal without unchanged H-H bonds, strict in general; remove_normal_edges keeps exactly the standard_order != 0 bonds; "
-              "extract_k option handling incl. n_knn=-1 (longest_radius_extension returns a simple path of unchanged bonds, longest from the first centre atom); list extraction is element-wise.  The model is compared with the Python code on every run "
+              "extract_k option handling incl. n_knn=-1 (longest_radius_extension: the result is the first longest path of the search trace and every traced path is a longest simple chain of unchanged bonds from its start atom avoiding the atoms excluded at that moment); the contexts commute with renumbering; remove_normal_edges for standard_order and is_mtg; extract_subgraph; list extraction is element-wise.  The model is compared with the Python code on every run "
               "(exhaustive <= 3-node scopes for the default and for the options, random/inconsistent/ignore_aromaticity ITS graphs, corpus "
-              "reactions and rewritings, radii 0..7 and -1, lists).")
+              "reactions and rewritings, radii 0..7, 50 and -1, lists, wrappers rsmi_to_its(core) and HierContext.fit, degenerate values, 100-150 atoms) and, since "
+              "round 3, on HISTORIES: scripts of 3-7 calls and in-place edits on one shared ITS object.")
 LEVEL_NOTE = ("ITS graphs whose standard_order follows neither rule are outside the hypotheses of the 'order differs' theorems and are checked by "
               "correspondence only; on ignore_aromaticity ITS graphs the property text's clause 'order differs => in the centre' is false by design "
               "of the option (the check demands the |difference| >= 1 version there); the RDKit front end used to obtain corpus ITS graphs is "
